@@ -1,0 +1,17 @@
+//go:build verif
+// +build verif
+
+// Verification hook for the block store check (add-only, compiled only with -tags verif): the
+// transaction tree root as checkStates computes it, so that a harness can build blocks that carry
+// transactions.
+package core
+
+import (
+	"com.tuntun.rangers/node/src/common"
+	"com.tuntun.rangers/node/src/middleware/types"
+)
+
+// VerifBCTxTree returns calcTxTree(txs).
+func VerifBCTxTree(txs []*types.Transaction) common.Hash {
+	return calcTxTree(txs)
+}
